@@ -63,6 +63,74 @@ def exact_P(W, locks):
     return P
 
 
+# ------------------------------------------------------------------ matching certificates
+
+
+def find_matching(W, locks, force=None):
+    """A perfect matching of the idle block as a list m (m[r] = column of row r; busy rows
+    get 0) that contains the pair `force` = (row, col); None when there is none."""
+    n = len(W)
+    idle = [i for i in range(n) if not locks[i]]
+    m = {}
+    used = set()
+    if force is not None:
+        i, j = force
+        if locks[i] or locks[j] or W[i][j] == 0:
+            return None
+        m[i] = j
+        used.add(j)
+    rows = [r for r in idle if r not in m]
+
+    def go(k):
+        if k == len(rows):
+            return True
+        r = rows[k]
+        for c in idle:
+            if c not in used and W[r][c] != 0:
+                used.add(c)
+                m[r] = c
+                if go(k + 1):
+                    return True
+                used.discard(c)
+                del m[r]
+        return False
+
+    # most constrained rows first
+    rows.sort(key=lambda r: sum(1 for c in idle if W[r][c] != 0))
+    if not go(0):
+        return None
+    return [m.get(r, 0) for r in range(n)]
+
+
+def _swap_rows(W, live, i, j):
+    W = [list(r) for r in W]
+    live = list(live)
+    W[i], W[j] = W[j], W[i]
+    live[i], live[j] = live[j], live[i]
+    return W, live
+
+
+def certificates(op, problems):
+    """Certificates for a recorded prep operation (see coq/model/MatchM.v)."""
+    before = op["before"]
+    W = [list(r) for r in before["W"]]
+    locks = list(before["locks"])
+    live = [p if p is not None else 0 for p in before["live"]]
+    low = op["low"]
+    takes = [(x[1], x[2]) for x in low if x[0] == "swap"]
+    certs = []
+    for (i, j) in takes:
+        m = find_matching(W, locks, (i, j))
+        if m is None:
+            problems.append(f"picked pair (row {i}, ensemble column {j}) lies on no perfect matching of the idle block: "
+                            f"its probability under the exact permanent ratios is zero (W={W}, locks={locks})")
+            return None
+        certs.append(",".join(map(str, m)))
+        W, live = _swap_rows(W, live, i, j)
+        locks[j] = 1
+    return "/".join(certs) if certs else "-"
+
+
 # ------------------------------------------------------------------ recorder
 
 
@@ -285,7 +353,7 @@ def compare_state(model, snap, tol=Fraction(1, 10**9)):
     return None
 
 
-def validate(runner, rec, label=""):
+def validate(runner, rec, label="", certs=True):
     """Run the acceptor on a recorded trace.  Returns (problems:list[str], stats:dict)."""
     problems = []
     if rec.init is None:
@@ -299,9 +367,14 @@ def validate(runner, rec, label=""):
             s = None
         if s is None:
             break
+        if certs:
+            c = certificates(op, problems) if op["kind"] == "prep" else "-"
+            if c is None:
+                break
+            s = s + "@" + c
         ops.append(s)
     try:
-        req = "trace " + enc_state_request(rec.init) + " " + " ".join(ops)
+        req = ("tracem " if certs else "trace ") + enc_state_request(rec.init) + " " + " ".join(ops)
     except ValueError as e:
         return [f"cannot encode initial state: {e}"], {}
     out = runner.run([req])[0]
